@@ -1,7 +1,7 @@
 (* Property C10 — accepted DIDs and DID URLs are canonical, decomposable, free of stray parts.
    Pinned statements only.  Byte strings are lists of N; "did:" = [100;105;100;58], ':' = 58. *)
 From Coq Require Import List NArith Bool.
-From IdV Require Import Lib.Outcome Did.DidParse Proofs.DidProofs Proofs.DidUrlProofs.
+From IdV Require Import Lib.Outcome Did.DidParse Proofs.DidProofs Proofs.DidUrlProofs Proofs.DidCompleteProofs.
 Import ListNotations.
 Open Scope N_scope.
 
@@ -60,6 +60,44 @@ Theorem C10_set_fragment_sound : forall v r, set_fragment v = Ok r ->
   | Some q => exists t, q = 35 :: t /\ t <> [] /\ valid_seg char_query t = true /\ (v = Some t \/ v = Some q)
   end.
 Proof. exact set_fragment_sound. Qed.
+(* COMPLETENESS (percent-free): the text "did:" m ":" i p ["?" q] ["#" f] with every part in its W3C character class
+   (wf_parts: m, i non-empty; p empty or starting '/'; q, f non-empty) IS accepted and decomposes into exactly those parts *)
+Theorem C10_url_complete : forall m i p oq of, wf_parts m i p oq of ->
+  did_url_parse (url_text m i p oq of)
+  = Ok {| u_did := [100; 105; 100; 58] ++ m ++ [58] ++ i; u_method := m; u_mid := i;
+          u_path := opt_nonempty p; u_query := option_map (cons 63) oq; u_frag := option_map (cons 35) of |}.
+Proof. exact did_url_complete. Qed.
+(* so, outside K_pct, the parser accepts EXACTLY the well-formed texts ... *)
+Theorem C10_url_accept_iff : forall s, no_pct s = true ->
+  ((exists u, did_url_parse s = Ok u) <-> exists m i p oq of, s = url_text m i p oq of /\ wf_parts m i p oq of).
+Proof. exact did_url_accept_iff. Qed.
+Theorem C10_did_accept_iff : forall s, no_pct s = true ->
+  ((exists mi, core_did_parse s = Ok mi) <->
+   exists m i, s = [100; 105; 100; 58] ++ m ++ [58] ++ i /\ m <> [] /\ forallb char_method m = true /\ i <> [] /\ forallb char_method_id i = true).
+Proof. exact core_did_accept_iff. Qed.
+(* ... every accepted value re-parses from its string form to ITSELF ... *)
+Theorem C10_url_reparse : forall s u, no_pct s = true -> did_url_parse s = Ok u -> did_url_parse (did_url_to_string u) = Ok u.
+Proof. exact did_url_reparse. Qed.
+Theorem C10_url_accepted_wf : forall s u, no_pct s = true -> did_url_parse s = Ok u -> wf_url u.
+Proof. exact did_url_parse_wf. Qed.
+(* ... and a successful setter on such a value yields a value that re-parses to itself (a failing setter assigns nothing) *)
+Theorem C10_set_path_reparses : forall u v r, wf_url u -> set_path v = Ok r -> no_pct (oapp r) = true ->
+  did_url_parse (did_url_to_string (with_path u r)) = Ok (with_path u r).
+Proof. exact set_path_reparses. Qed.
+Theorem C10_set_query_reparses : forall u v r, wf_url u -> set_query v = Ok r -> no_pct (oapp r) = true ->
+  did_url_parse (did_url_to_string (with_query u r)) = Ok (with_query u r).
+Proof. exact set_query_reparses. Qed.
+Theorem C10_set_fragment_reparses : forall u v r, wf_url u -> set_fragment v = Ok r -> no_pct (oapp r) = true ->
+  did_url_parse (did_url_to_string (with_frag u r)) = Ok (with_frag u r).
+Proof. exact set_fragment_reparses. Qed.
+(* outside K_pct DIDUrl::parse is total: it never panics *)
+Theorem C10_url_total_pct_free : forall s, no_pct s = true -> did_url_parse s <> Panic.
+Proof. exact did_url_total_pct_free. Qed.
+(* the hypotheses are satisfiable: did:ab:c:d/p?q=1#f *)
+Example C10_wf_example : wf_parts [97; 98] [99; 58; 100] [47; 112] (Some [113; 61; 49]) (Some [102]).
+Proof. constructor; [split; [discriminate|reflexivity] | split; [discriminate|reflexivity] | right; eexists; split; reflexivity
+  | intros q H; inversion H; repeat split; discriminate | intros f H; inversion H; split; [discriminate|reflexivity]]. Qed.
+
 (* known finding K_pct (third-party did_url_parser 0.3.0): refutation witnesses kept in the development *)
 Theorem C10_pct_swallow_refuted :
   tp_loop stop_mid char_method_id [37; 52; 49; 35; 120] = Some 5%nat
@@ -83,3 +121,12 @@ Print Assumptions C10_url_pct_panics_refuted.
 Print Assumptions C10_url_verbatim_concat.
 Print Assumptions C10_url_trimmed.
 Print Assumptions C10_url_unguarded_refuted.
+Print Assumptions C10_url_complete.
+Print Assumptions C10_url_accept_iff.
+Print Assumptions C10_did_accept_iff.
+Print Assumptions C10_url_reparse.
+Print Assumptions C10_url_accepted_wf.
+Print Assumptions C10_set_path_reparses.
+Print Assumptions C10_set_query_reparses.
+Print Assumptions C10_set_fragment_reparses.
+Print Assumptions C10_url_total_pct_free.
